@@ -48,10 +48,13 @@ func credTokens(h hdrTab) []string {
 	return out
 }
 
-// fieldName strips the markers under which trailer fields travel in tables / in Go's header map.
+// fieldName maps the marker under which an announced trailer field travels in the upstream table to the
+// form isCredName understands (trailer fields are `Trailer:<name>`).
 func fieldName(k string) string {
-	k = strings.TrimPrefix(k, "Trailer:")
-	return strings.TrimPrefix(k, "Announced:")
+	if strings.HasPrefix(k, "Announced:") {
+		return "Trailer:" + strings.TrimPrefix(k, "Announced:")
+	}
+	return k
 }
 
 func tabContains(h hdrTab, tok string) bool {
